@@ -1,6 +1,13 @@
 """Per-property configuration of the check driver (lib/vcheck.py)."""
 
+
 RX_TB = "Coq regex engine (Regex.v) agrees with Go regexp: checked by the RX differential on every regex-dependent run"
+
+NC_RULE = ("netconf.Driver over the simulated transport against a NETCONF server model (strict RFC 6242 / end-of-message request parser; per-request "
+           "behaviour reply now / after the client's timeout / never; echoing or not; 1.0/1.1; reply chunkings incl. ones that split the message-id "
+           "attribute; read segmentations that never merge two server messages). The transport log (every read with its bytes, every write, call "
+           "boundaries, observed deadlines) is replayed by the model; compared: open outcome (version, capabilities, session-id), per call the "
+           "message-id, Input, FramedInput, result, failure kind, and every byte written.")
 
 PROPS = {
     "RX": {
@@ -94,6 +101,76 @@ PROPS = {
                       "oracle whose output the templates are compared with on every case. Force-self-closing is modelled with the regex engine "
                       "and compared differentially; no general theorem about it yet.",
         "assumptions": ["argument strings are valid UTF-8 without XML-invalid control characters (encoding/xml would substitute U+FFFD)"],
+    },
+    "C04": {
+        "n": {"quick": 250, "thorough": 8000},
+        "cone": ["Bytes", "BytesLemmas", "Regex", "Generated", "Channel", "Network", "NetworkAbs", "NetworkLemmas", "Replay"],
+        "rx": True,
+        "rule": "network.Driver over the simulated transport against a privilege-tree device: random rooted labelled trees of 1-6 levels (with and "
+                "without authenticated edges, with/without secondary secret), every kind of start mode / default level, histories of 1-6 operations "
+                "mixing SendCommand, SendCommands, SendConfigs (default 'configuration' or explicit level) and AcquirePriv (incl. unknown targets), "
+                "read segmentations. The transport log is replayed by the model of driver/network (programs over the Channel interpreter); compared: "
+                "per-call outcome/result, every write (with redaction of the secret), the cached level. Oracle: device (mode, line) log = commands of "
+                "the BFS tree path then the operation's lines, final mode = target. Non-trivial = more than one level.",
+        "level_text": "Theorems C04_tree_path / _tree_path_unique / _dfs_order_irrelevant / _acquire / _unknown_target: for every well-formed privilege tree, "
+                      "every iteration order of Go's maps, every (current, target) pair: the DFS returns the unique tree path and the acquire loop drives "
+                      "the device along it with exactly the path's commands (graph induction + loop invariant, unbounded). The transcription of "
+                      "driver/network/*.go is tied to the code by replaying the logged schedule of real sessions.",
+        "level_note": "The navigation theorem is stated at the level of whole exchanges (NetworkAbs); the refinement from exchanges to byte-level reads is "
+                      "C01's phase lemma and is not yet composed with it mechanically. Hypotheses: prompts identify levels uniquely, sibling commands "
+                      "distinct, no level named by the empty string (found by the proof).",
+        "assumptions": ["user command lines do not themselves change the device mode (history clause)"],
+    },
+    "C08": {
+        "n": {"quick": 200, "thorough": 5000},
+        "cone": ["Bytes", "BytesLemmas", "Regex", "Generated", "Netconf", "NetconfLemmas", "NcSession", "NcSessionLemmas"],
+        "rx": True,
+        "rule": NC_RULE + " Histories of 1-25 RPCs with 60 ms timeouts and late replies; non-trivial = more than one request.",
+        "level_text": "Theorems C08_ids / _own_reply / _own_request / _complete_message_filed / _incomplete_kept / _late_reply_harmless / _no_panic over the "
+                      "model of the read loop and RPC wait hold for every operation list and every log (store invariant by induction, unbounded). "
+                      "Tied to driver/netconf by replaying the logged schedule of each real session.",
+        "level_note": "Hypotheses carried by the theorems: a message's id must be extractable from the framed bytes (see the known finding: a 1.1 chunk "
+                      "boundary inside the message-id attribute makes the reply unfileable); reply payloads do not contain the literal '</rpc>'. Trusted: "
+                      "kernel, generated regex ASTs + RX, extraction, harness server model.",
+        "assumptions": ["one read never carries bytes of two server messages", "reply payloads do not contain the literal </rpc>"],
+    },
+    "C09": {
+        "n": {"quick": 200, "thorough": 5000},
+        "cone": ["Bytes", "BytesLemmas", "Regex", "Generated", "Netconf", "NetconfLemmas", "NcSession", "NcSessionLemmas"],
+        "rx": True,
+        "rule": NC_RULE + " The 4 x 3 table {base:1.0, base:1.1 advertised} x {preferred none/1.0/1.1} exhaustively first, then random extra capabilities "
+                "(incl. near-miss URNs), nc: prefix, layouts, session-ids up to 2^64-1, missing / truncated hello; non-trivial = every case.",
+        "level_text": "Theorems C09_table / _11_iff (for all capability lists), C09_client_hello (by computation on the generated hello strings with the "
+                      "library's own capability pattern), C09_open_spec / _open_complete / _fail_is_netconf_error. Tied to capabilities.go/driver.go by "
+                      "replaying real Open calls against generated server hellos.",
+        "level_note": "parse_hello (regex extraction over hello layouts) is exercised differentially, not proved in general. Trusted: kernel, generated "
+                      "constants/regex ASTs + RX, extraction, harness.",
+    },
+    "C14": {
+        "n": {"quick": 60, "thorough": 1500},
+        "cone": ["Bytes", "BytesLemmas", "Generated", "SshArgs", "SshArgsLemmas"],
+        "rule": "exhaustive table {system, standard, system with real OpenSSH} x {strict (default), not strict} x {known-hosts has the key / another key / "
+                "empty / not given} x {password, key, both}, then random ports/users/extra args/config file/netconf; system transport through a stand-in "
+                "ssh binary that records argv, standard transport against an in-process x/crypto/ssh server with a fresh host key (and a second server "
+                "whose key is in no file, to tell an insecure policy from a checking one); non-trivial = every case",
+        "level_text": "Theorems C14_* (29) over the model of System.buildOpenArgs (built from the generated literal list, so the source decides the "
+                      "strings) and Standard.openBase hold for all settings and strings: strict => yes-option present / no-option absent / known-hosts "
+                      "named; argv independent of the password; host/port/user/key/config as configured; policy and auth-method decisions; default "
+                      "strict. Tied to the code by argv and server-side observations on the configuration table.",
+        "level_note": "Partial: that OpenSSH and crypto/ssh ENFORCE the option / callback is runtime behaviour, exercised on the table, not proved.",
+    },
+    "C18": {
+        "n": {"quick": 250, "thorough": 6000},
+        "cone": ["Bytes", "Regex", "Generated", "Channel", "Replay"],
+        "rx": True,
+        "rule": "generic.Driver.SendWithCallbacks over the simulated transport and a scripted dialogue device: callback lists (contains / not-contains / "
+                "regex / case sensitivity / once / complete / next-timeout / answers written by the callback), dialogues whose texts make several triggers "
+                "true in different orders, read segmentations; the transport log is replayed by the model; compared: sequence of (callback index, "
+                "argument), result, error class, writes; non-trivial = some callback ran",
+        "level_text": "Model of Callback.check / handleCallbacks / executeCallback as a program of the Channel interpreter; tied to the code by replaying "
+                      "the logged schedule of each real run (trace of invocations, result, error). Theorems over the callback loop are in progress "
+                      "(see DESIGN.md); the deciding evidence today is the checked correspondence plus the property oracle.",
+        "level_note": "Theorem coverage for C18 is partial (trigger predicate equivalence only); see DESIGN.md.",
     },
     "C13": {
         "n": {"quick": 400, "thorough": 20000},
